@@ -361,7 +361,7 @@ func (c c07) ParentPhase(env *kernel.Env) kernel.PhaseResult {
 	}
 	perProc, nprog := 2, len(fixedPrograms(env))+2
 	if env.Tier == "thorough" {
-		perProc, nprog = 20, len(fixedPrograms(env))+8
+		perProc, nprog = 8, len(fixedPrograms(env))+8
 	}
 	progs := fixedPrograms(env)
 	for i := 0; len(progs) < nprog; i++ {
@@ -479,7 +479,7 @@ func (c c07) ParentPhase(env *kernel.Env) kernel.PhaseResult {
 	// reload tier: the same program loaded again and again in one process
 	reloads := 30
 	if env.Tier == "thorough" {
-		reloads = 300
+		reloads = 120
 	}
 	type rres struct {
 		ref progRef
